@@ -258,3 +258,70 @@ def c18(ctx):
         not_decided=['that get/set/copy/weights equal the bit-matrix model for all dimensions; that the solver returns the unique solution '
                      'iff full column rank (value-level)', 'the SWAR popcount formulas (of_popcount_3, of_hweight32)'],
         exhaustive=False)
+
+
+from . import rules_pchk as K
+
+
+@prop('C05')
+def c05(ctx):
+    for prog in programs(ctx):
+        K.r_pure_pchk(ctx, prog)
+        P.r_srand_dom(ctx, prog)
+        P.r_seedrange(ctx, prog)
+        P.r_fpscale(ctx, prog)
+        P.r_prng_step(ctx, prog)
+        PA.r_param(ctx, prog, codecs=(3,), only=['seed', 'N1>=3', 'N1<=r'])
+        K.r_staircase(ctx, prog)
+        K.r_colfill(ctx, prog)
+        K.r_verbosity(ctx, prog)
+    return dict(
+        explanation='"Depends only on (k, n, N1, seed), same for encoder and decoder, after any history": R-PURE-PCHK (effects of the '
+        'constructor and of everything it calls; call-site arguments; no role dependence), R-SRAND-DOM (seeded from the seed parameter '
+        'before every draw), R-PARAM(seed, N1) (every accepted seed is one the PRNG really takes), R-SEEDRANGE/R-PRNG-STEP/R-FPSCALE '
+        '(the generator is Park-Miller with RFC 5170\'s scaling expression), R-VERBOSITY. Shape of the RFC 5170 matrix that is visible '
+        'structurally: R-COLFILL (exactly N1 distinct ones in each source column) and R-STAIRCASE (exact staircase on the right).',
+        decides=['the matrix is a function of (k, n, N1, seed) only, identical for encoder and decoder and after any history',
+                 'PRNG identity (recurrence, scaling expression)', 'N1 ones per source column; exact staircase'],
+        not_decided=['that the left-side fill (choice list u[], replacement by u[t], extra-entry rule) reproduces RFC 5170 entry for entry'])
+
+
+@prop('C12')
+def c12(ctx):
+    for prog in programs(ctx):
+        K.r_globals(ctx, prog)
+        K.r_verbosity(ctx, prog)
+        P.r_srand_dom(ctx, prog)
+        P.r_prng_effect(ctx, prog)
+        PA.r_param(ctx, prog, codecs=(3,), only=['seed'])
+        T.r_table_writers(ctx, prog)
+        T.r_init_before_use(ctx, prog)
+    return dict(
+        explanation='Cross-session channels are exactly the reviewed writable globals (R-GLOBALS: writers frozen per global; a new '
+        'writable static makes the check ANALYSIS-BROKEN rather than pass): of_seed is fully re-seeded from the session\'s own seed before '
+        'every draw (R-SRAND-DOM + accepted seeds are valid, R-PARAM), the RS-2^8 tables are constant after a parameterless one-shot '
+        'initialisation (R-TABLE-WRITERS, R-INIT-BEFORE-USE), of_verbosity only controls printing (R-VERBOSITY), libc rand() only '
+        'permutes an injection order. Everything else a session touches is reached through its own control block.',
+        decides=['no state shared between sessions other than the reviewed, benign globals'],
+        not_decided=['benignness of a new writable static (reported as ANALYSIS-BROKEN by design)',
+                     'heap-level interference (allocator state) is outside the library'])
+
+
+@prop('C15')
+def c15(ctx):
+    for prog in programs(ctx):
+        K.r_flag_truth(ctx, prog)
+        K.r_extra_mark(ctx, prog)
+        K.r_colfill(ctx, prog)
+        K.r_staircase(ctx, prog)
+        K.r_nullfeed(ctx, prog)
+        K.r_pure_pchk(ctx, prog)
+    return dict(
+        explanation='Chain deciding C15: R-FLAG-TRUTH (the query answers true iff no extra entries and N1 even; truth table enumerated over '
+        'the path conditions; role-independent), R-EXTRA-MARK (every entry beyond the column fill and the staircase is counted and the '
+        'marker is count >= 1), R-COLFILL (each source column has exactly N1 ones), R-STAIRCASE (parity columns: two ones each, the last '
+        'one a single one), R-NULLFEED (the decoder assumes a zero symbol only under that answer, with a zero buffer of the symbol length '
+        'and ESI n-1), R-PURE-PCHK (encoder and decoder build the same matrix). Lemma (written in DESIGN.md): summing all rows of H, every '
+        'source column contributes N1 (even) ones and every parity column but the last two, so the last repair symbol equals zero.',
+        decides=['all of C15 given the one-line lemma'],
+        not_decided=[])
